@@ -231,13 +231,16 @@ func (c *Cache) doLazyUpdate(msgKey string, qCtx *query_context.Context, next se
 		ctx, cancel := context.WithTimeout(context.Background(), defaultLazyUpdateTimeout)
 		defer cancel()
 
+		// Same as in Exec: a response that the copy of qCtx carries already
+		// was not produced for msgKey by the rest of the sequence.
+		rBefore := qCtx.R()
 		err := next.ExecNext(ctx, qCtx)
 		if err != nil {
 			c.logger.Warn("failed to update lazy cache", qCtx.InfoField(), zap.Error(err))
 		}
 
 		r := qCtx.R()
-		if r != nil {
+		if r != nil && rBefore != r {
 			saveRespToCache(msgKey, r, c.backend, c.args.LazyCacheTTL)
 			c.updatedKey.Add(1)
 		}
